@@ -12,11 +12,13 @@ import impl
 import stream
 import aspast
 import solve
+import gen_core
 from common import Report, coq_str, coq_list
 
 PID = 'C06'
 PRE_P = 'Require Import Cnl2aspV.Gen.Operators Cnl2aspV.Asp.Syntax Cnl2aspV.Asp.Print Cnl2aspV.Asp.PrintCases.'
 PRE_V = 'Require Import Cnl2aspV.Cnl.Values Cnl2aspV.Cnl.ValuesCases.'
+PRE_K = 'Require Import Cnl2aspV.Cnl.Core Cnl2aspV.Cnl.CoreCases Cnl2aspV.Cnl.CoreSafe Cnl2aspV.Cnl.CoreSafeCases.'
 
 
 def is_temporal(prog):
@@ -62,7 +64,7 @@ def value_cases(rnd, tier):
 def run(tier, seed):
     rep = Report(PID, tier, seed)
     rnd = random.Random(seed)
-    proof = common.build_property(PID, extra=['Asp/PrintCases.vo', 'Cnl/ValuesCases.vo'])
+    proof = common.build_property(PID, extra=['Asp/PrintCases.vo', 'Cnl/ValuesCases.vo', 'Cnl/CoreSafeCases.vo'])
     findings = {f['id']: f for f in common.load_findings(PID) if f.get('status') == 'known'}
     specs = stream.specs(tier, seed, n_quick=220)
     # directed: the witness of every known finding of the temporal printer is part of every run (the finding must still be there)
@@ -143,8 +145,35 @@ def run(tier, seed):
     rep.evaluations += len(vcases)
     rep.sample(dict(text=pmeta[0]['text'], program=pmeta[0]['program']))
     rep.sample(dict(convert_value=[(t, o) for _, t, o in vc[-5:]]))
+    # core fragment: the compile model of the safety theorem against the implementation; the implementation's programs must ground
+    kspecs = gen_core.directed()
+    while len(kspecs) < (400 if tier == 'thorough' else 60):
+        kspecs.append(gen_core.gen(rnd, max_dom=2))
+    ktexts = [gen_core.render(x) for x in kspecs]
+    kcases, kmeta = [], []
+    for ks, kt, kr in zip(kspecs, ktexts, impl.compile_many(ktexts)):
+        rep.case(kt)
+        if kr[0] != 'ok':
+            rep.violation('a core-fragment specification is rejected', dict(text=kt, result=kr[:3]))
+            continue
+        kcases.append('{| k_spec := %s; k_out := %s |}' % (gen_core.coq_spec(ks), coq_str(kr[1])))
+        kmeta.append(dict(text=kt, program=kr[1]))
+        ok, msgs = solve.ground_messages(kr[1])
+        if not ok:
+            rep.violation('the compiled core-fragment program does not ground: %s' % ' '.join(x[1] for x in msgs)[:300],
+                          dict(text=kt, program=kr[1], messages=msgs[:3]))
+    st['core_specifications'] = len(kcases)
     tie_broken = []
     if proof['ok'] or proof['extra_ok']:
+        k1 = common.run_cases(PID, 'ktie', PRE_K, kcases, 'ksafe_tie', shard=40)
+        k2 = common.run_cases(PID, 'khyp', PRE_K, kcases, 'ksafe_hyp', shard=40)
+        k3 = common.run_cases(PID, 'ksafe', PRE_K, kcases, 'ksafe_ok', shard=40)
+        if k1:
+            tie_broken.append('core compile model (Cnl/Core.v, C06_core_fragment_safe) differs from the implementation on %d specifications, first: %r' % (len(k1), kmeta[k1[0]]))
+        if k2:
+            tie_broken.append('a generated core specification does not meet the hypothesis of C06_core_fragment_safe: %r' % (kmeta[k2[0]],))
+        for i in [x for x in k3 if x not in k1][:3]:
+            rep.violation('a rule of the compiled core-fragment program is unsafe (model evaluation)', kmeta[i])
         f1 = common.run_cases(PID, 'flat', PRE_P, pcases, 'flat_ok', shard=40)
         f2 = common.run_cases(PID, 'val', PRE_V, vcases, 'vcase_ok', shard=1500)
         if f1:
@@ -162,7 +191,7 @@ def run(tier, seed):
     elif tie_broken:
         rep.notes.extend(tie_broken)
     rep.cov.update(programs=len(pcases), parsed_by_clingo=st['parsed'], grounded_ok=st['grounded'], temporal_programs=st['temporal'],
-                   inputs_rejected_by_compiler=st['rejected'], corpus_programs_not_grounding_unscored=st['corpus_ground_failures'], value_tokens=len(vcases))
+                   inputs_rejected_by_compiler=st['rejected'], corpus_programs_not_grounding_unscored=st['corpus_ground_failures'], value_tokens=len(vcases), core_specifications=st['core_specifications'])
     rep.assumptions += ['clingo.ast.parse_string / clingo.Control.ground / telingo are the definition of "accepted by the solver"',
                         'grounding is scored only for wide-generator inputs, which meet the hypothesis (author variables in positive occurrences, total facts) by construction']
     return rep.finish(proof, rule='corpus + wide generator; every output parsed by the solver, wide-generator outputs grounded, temporal outputs run through telingo; '
